@@ -443,6 +443,7 @@ structure ParseOut where
   trace : List CbCall    -- in order
   maxDepth : Nat
   incLeft : Nat          -- include levels still open when the parse ended (before the unwind)
+  incAfter : Nat := 0    -- ... and after `cfg_lexer_include_unwind(depth)`
   fuelOut : Bool
 deriving Inhabited
 
@@ -458,6 +459,7 @@ def parseFp (orc : Oracle) (pe : PEnv) (c : Cfg) (text : Bytes) (k0 : Nat := 0) 
   let root := match collapse m.frames with | some f => f.cfg | none => c1
   { cfg := root, rc := if m.status == .accepted then 0 else 1, diags := m.diags.reverse,
     trace := (m.trace.reverse.drop k0), maxDepth := m.maxDepth, incLeft := m.srcs.length - 1,
+    incAfter := (m.srcs.length - 1) - (m.srcs.length - 1),
     fuelOut := m.status == .outOfFuel }
 
 def bufName : Bytes := [91, 98, 117, 102, 93]        -- "[buf]"
